@@ -13,6 +13,9 @@ import PV.Lexer.SoftKw
   What the rules do NOT mention: tokens.  The theorem (`Thm.lean`) is that rule-related texts have the same
   range-erased token stream.
 
+  Consistent re-indentation (other width, tabs for spaces) is not a single-place rewrite; its relation between texts
+  is `PV.C08.Reindent` (`ReindentText.lean`).  Redundant parentheses are not a lexer matter: `Paren.lean`.
+
   Core Lean only.
 -/
 namespace PV.C08
@@ -102,13 +105,18 @@ def At (cfg : Cfg) (src : List Nat) (p : Nat) (st : LexState) (ts : List Tok) : 
 
 /-- One layout-only rewrite `a ↦ b`.
 
-    The place-dependent rules say `a = pre ++ post`, `b = pre ++ ins ++ post` and require that the lexer is at a
-    step boundary in front of `post` in both texts, in the same state `st` after the same tokens (`At` for `a`
-    and for `b`): the text in front of the place is the same, and the place is a "gap" in both.  The side
-    condition proper is on `st`:
+    The place-dependent rules say `a = pre ++ post`, `b = pre ++ ins ++ post` and require that in the ORIGINAL text
+    `a` the lexer is at a step boundary in front of `post`, in state `st` after the tokens `ts` (`At` for `a`).
+    The side condition proper is on `st`:
       `st.atBol = true`   at the start of a (logical or blank) line,
       `st.atBol = false`  behind some token of the current line,
-      `st.nesting`        bracket depth. -/
+      `st.nesting`        bracket depth.
+
+    For the three rules at the start of a line (`blankLine`, `blankTail`, `formFeed`) nothing is assumed about the
+    rewritten text `b`: that the lexer reaches the place in `b` in the same state after the same tokens is DERIVED
+    (`PV.C08.at_bol_extend`).  The four rules behind a token (`blanks`, `commentAfter`, `backslashJoin`,
+    `bracketBreak`) additionally carry `At` for `b`: there it cannot be derived in general — the token in front of the
+    place may swallow the inserted text (`x #c` + blank: the comment grows; `PV.C08.at_rewritten_not_derivable`). -/
 inductive LayoutStep (cfg : Cfg) : List Nat → List Nat → Prop
   /-- LF ↔ CRLF ↔ CR, anywhere: also inside strings, after a backslash, in comments -/
   | eol {a b} : foldEol a = foldEol b → LayoutStep cfg a b
@@ -116,17 +124,19 @@ inductive LayoutStep (cfg : Cfg) : List Nat → List Nat → Prop
   | bom {a} : a.head? ≠ some 0xFEFF → LayoutStep cfg a (0xFEFF :: a)
   /-- a blank or comment-only line, with any indentation, inserted at the start of a line -/
   | blankLine {pre post w c e st ts} :
-      At cfg (pre ++ post) pre.length st ts → At cfg (pre ++ (w ++ c ++ e ++ post)) pre.length st ts →
+      At cfg (pre ++ post) pre.length st ts →
       st.atBol = true → BolBlank w → (c = [] ∨ IsComment c) → IsEol e → NoFuse e post →
+      /- a bare LF behind a line that ends in a lone CR would read as the second half of one CRLF -/
+      (pre.getLast? = some 13 → (w ++ c ++ e).head? ≠ some 10) →
       LayoutStep cfg (pre ++ post) (pre ++ (w ++ c ++ e ++ post))
   /-- the same at the very end of the text, without a line end of its own -/
   | blankTail {pre w c st ts} :
-      At cfg pre pre.length st ts → At cfg (pre ++ (w ++ c)) pre.length st ts →
+      At cfg pre pre.length st ts →
       st.atBol = true → BolBlank w → (c = [] ∨ IsComment c) →
       LayoutStep cfg pre (pre ++ (w ++ c))
   /-- a form feed, possibly preceded by blanks, in front of the indentation of a line -/
   | formFeed {pre post w st ts} :
-      At cfg (pre ++ post) pre.length st ts → At cfg (pre ++ (w ++ 12 :: post)) pre.length st ts →
+      At cfg (pre ++ post) pre.length st ts →
       st.atBol = true → BolBlank w →
       LayoutStep cfg (pre ++ post) (pre ++ (w ++ 12 :: post))
   /-- blanks between tokens; in front of a line end this is trailing whitespace -/
